@@ -3,10 +3,15 @@ from vlib import oracles, reharness
 from vlib.harness import Harness, register
 from harnesses.c01_documents import OUT, STUBS, _fns
 
-PLANS = ["monitor_mid", "staged_monitor", "flymon"]
+PLANS = ["monitor_mid", "monitor_meta", "staged_monitor", "flymon"]
+
+
+def _poke(lab):
+    lab.poke_on_stop = True
+
 SYM = ("plan index (monitor/unmonitor in mid-run, monitor_during wrapper, monitor closed by the engine), loop step k1 of a pause (resumed) / suspension / abort, "
        "signal updates pushed at loop steps u1 (and u2) in [0,T+2] -- also while paused, suspended, after unmonitor and after the run")
-register(Harness("c41_updates", "C41", lambda P: reharness.make_sweep(P, oracles.c41_monitors, plans=PLANS[:2] if P["tier"] == "quick" else PLANS,
+register(Harness("c41_updates", "C41", lambda P: reharness.make_sweep(P, oracles.c41_monitors, plans=PLANS[:3] if P["tier"] == "quick" else PLANS, extra=dict(setup=_poke),
                                                                        kinds=["pause", "suspend"] if P["tier"] == "quick" else ["pause", "suspend", "abort"],
                                                                        decisions=["resume"], updates=1 if P["tier"] == "quick" else 2),
                  {"quick": dict(shards=32, budget_s=300, per_path_s=30), "thorough": dict(shards=96, budget_s=3000, per_path_s=30)},
